@@ -4,7 +4,7 @@
 use serde_json::{json, Value};
 
 use crate::engine::{Ctx, Fail, Local};
-use crate::oracle::int::SplitMix;
+use crate::oracle::int::{SplitMix, U1024};
 use crate::props::c04::{contention_cases, judge_threaded, THREAD_COUNTS};
 use crate::props::factoring::*;
 use crate::worker::run_jobs;
@@ -24,9 +24,54 @@ fn run_perturbed(ctx: &Ctx, l: &mut Local) {
         for r in 0..reps {
             let mut d = c.clone();
             d.prefs.threads = Some(THREAD_COUNTS[(i + r) % THREAD_COUNTS.len()]);
-            d.prefs.perturb = Some(rng.next() | 1);
+            // bit 1 selects the "window" mode of the hook; the general batch uses the PCT-flavoured mode
+            // general batch: PCT-flavoured mode, every fourth run the "ambush" mode
+            d.prefs.perturb = Some(if (i + r) % 4 == 3 { rng.next() & !14 | 9 } else { rng.next() & !14 | 1 });
             cases.push(d);
             idx.push(i);
+        }
+    }
+    // window- and freeze-mode batch: 64..100-bit semiprimes on the self-initialising and the multiple-polynomial sieve with
+    // 8, 12 and 16 workers, i.e. runs that need more work items than there are workers and cross the relation
+    // target several times
+    let nwin = ctx.n(100, 600) as usize;
+    let wreps = ctx.pick(6usize, 12);
+    let mut win_cases = vec![];
+    for i in 0..nwin {
+        let bits = 64 + rng.below(37) as u32;
+        let a = bits / 2 - rng.below(4) as u32;
+        let p = U1024::from(crate::oracle::int::prime64(a, &mut rng));
+        let q = U1024::from(crate::oracle::int::prime64(bits - a, &mut rng));
+        if p == q {
+            continue;
+        }
+        let algo = match i % 4 {
+            0 | 1 => "siqs",
+            2 => "mpqs",
+            _ => "auto",
+        };
+        let mut c = mk_case("window-semiprime", vec![p, q], algo, PrefSpec::default());
+        c.shape = "window-semiprime".into();
+        win_cases.push(c);
+    }
+    let wjobs: Vec<Value> = win_cases.iter().map(|c| c.job()).collect();
+    let wbase = run_jobs("opt", &wjobs, workers(), &|_| 300.0).unwrap_or_default();
+    let mut base = base;
+    let nbase = base.len();
+    base.extend(wbase.iter().map(Outcome::from_job));
+    for (i, c) in win_cases.iter().enumerate() {
+        for r in 0..wreps {
+            let mut d = c.clone();
+            d.prefs.threads = Some([8, 12, 16][(i + r) % 3]);
+            // half of the runs use the "ambush" mode (bit 3), a third the "freeze" mode (bit 2), a sixth the "window" mode (bit 1)
+            let x = rng.next() & !14 | 1;
+            d.prefs.perturb = Some(match r % 6 {
+                0 | 2 | 4 => x | 8,
+                1 | 3 => x | 4,
+                _ => x | 2,
+            });
+            cases.push(d);
+            idx.push(nbase + i);
         }
     }
     let jobs: Vec<Value> = cases.iter().map(|c| c.job()).collect();
@@ -36,6 +81,20 @@ fn run_perturbed(ctx: &Ctx, l: &mut Local) {
         let o = Outcome::from_job(r);
         l.case();
         l.label("perturbed-run");
+        if c.prefs.perturb.unwrap_or(0) & 2 != 0 {
+            l.label("perturbed:window-mode");
+        }
+        if c.prefs.perturb.unwrap_or(0) & 4 != 0 {
+            l.label("perturbed:freeze-mode");
+        }
+        if c.prefs.perturb.unwrap_or(0) & 8 != 0 {
+            l.label("perturbed:ambush-mode");
+            if let crate::worker::JobResult::Resp(v) = r {
+                if v["ambushes"].as_u64().unwrap_or(0) > 0 {
+                    l.label("perturbed:ambush-sprung");
+                }
+            }
+        }
         l.label(&format!("perturbed:algo:{}", c.algo));
         l.label(&format!("perturbed:outcome:{}", o.tag()));
         if let crate::worker::JobResult::Resp(v) = r {
@@ -60,6 +119,9 @@ pub fn run(ctx: &Ctx, l: &mut Local) {
     super::c04_orders::run(ctx, l);
     ctx.essential("perturbed:>=2-writer-threads", 20);
     ctx.essential("yield-points-hit", 1000);
+    ctx.essential("perturbed:window-mode", 20);
+    ctx.essential("perturbed:freeze-mode", 40);
+    ctx.essential("perturbed:ambush-sprung", 20);
 }
 
 pub fn replay(ctx: &Ctx, check: &str, case: &Value) -> Result<(), Fail> {
